@@ -142,7 +142,7 @@ Section Routing.
     { rewrite walks_fst. unfold mids. rewrite recipients_present. apply recipients_rule. exact Hw. }
     destruct (changes (walks wk (mem s) mids msg)) as [| c ch] eqn:Ec.
     - cbn [fst snd walked_of]. repeat split; assumption.
-    - destruct (up s); cbn [fst snd walked_of mem].
+    - destruct (up s && all_serialisable (c :: ch)); cbn [fst snd walked_of mem].
       + repeat split; try assumption.
         * apply set_states_ids. exact Hw.
         * unfold wf. cbn [mem]. apply set_states_sorted. exact Hw.
